@@ -30,6 +30,7 @@ pub enum MReg {
     C3(Guarded<Map<Key, Val, 3>>),
     C4(Guarded<Map<Key, Val, 4>>),
     C8(Guarded<Map<Key, Val, 8>>),
+    C17(Guarded<Map<Key, Val, 17>>),
 }
 pub enum SReg {
     C0(Guarded<Set<Key, 0>>),
@@ -38,6 +39,7 @@ pub enum SReg {
     C3(Guarded<Set<Key, 3>>),
     C4(Guarded<Set<Key, 4>>),
     C8(Guarded<Set<Key, 8>>),
+    C17(Guarded<Set<Key, 17>>),
 }
 
 macro_rules! with_m {
@@ -49,6 +51,7 @@ macro_rules! with_m {
             MReg::C3(g) => { let $m = &mut g.v; $b }
             MReg::C4(g) => { let $m = &mut g.v; $b }
             MReg::C8(g) => { let $m = &mut g.v; $b }
+            MReg::C17(g) => { let $m = &mut g.v; $b }
         }
     };
 }
@@ -61,6 +64,7 @@ macro_rules! with_mr {
             MReg::C3(g) => { let $m = &g.v; $b }
             MReg::C4(g) => { let $m = &g.v; $b }
             MReg::C8(g) => { let $m = &g.v; $b }
+            MReg::C17(g) => { let $m = &g.v; $b }
         }
     };
 }
@@ -73,6 +77,7 @@ macro_rules! with_s {
             SReg::C3(g) => { let $m = &mut g.v; $b }
             SReg::C4(g) => { let $m = &mut g.v; $b }
             SReg::C8(g) => { let $m = &mut g.v; $b }
+            SReg::C17(g) => { let $m = &mut g.v; $b }
         }
     };
 }
@@ -85,6 +90,7 @@ macro_rules! with_sr {
             SReg::C3(g) => { let $m = &g.v; $b }
             SReg::C4(g) => { let $m = &g.v; $b }
             SReg::C8(g) => { let $m = &g.v; $b }
+            SReg::C17(g) => { let $m = &g.v; $b }
         }
     };
 }
@@ -97,6 +103,7 @@ fn mk_mreg(cap: u64) -> MReg {
         3 => MReg::C3(Guarded::new(Map::new())),
         4 => MReg::C4(Guarded::new(Map::new())),
         8 => MReg::C8(Guarded::new(Map::new())),
+        17 => MReg::C17(Guarded::new(Map::new())),
         _ => panic!("unsupported capacity {}", cap),
     }
 }
@@ -108,6 +115,7 @@ fn mk_sreg(cap: u64) -> SReg {
         3 => SReg::C3(Guarded::new(Set::new())),
         4 => SReg::C4(Guarded::new(Set::new())),
         8 => SReg::C8(Guarded::new(Set::new())),
+        17 => SReg::C17(Guarded::new(Set::new())),
         _ => panic!("unsupported capacity {}", cap),
     }
 }
@@ -117,6 +125,7 @@ impl MReg {
         match self {
             MReg::C0(g) => g.intact(), MReg::C1(g) => g.intact(), MReg::C2(g) => g.intact(),
             MReg::C3(g) => g.intact(), MReg::C4(g) => g.intact(), MReg::C8(g) => g.intact(),
+            MReg::C17(g) => g.intact(),
         }
     }
     // Clone::clone_from between two registers of the same capacity
@@ -128,6 +137,7 @@ impl MReg {
             (MReg::C3(d), MReg::C3(s)) => windowed(&s.v, || counted(|| d.v.clone_from(&s.v))),
             (MReg::C4(d), MReg::C4(s)) => windowed(&s.v, || counted(|| d.v.clone_from(&s.v))),
             (MReg::C8(d), MReg::C8(s)) => windowed(&s.v, || counted(|| d.v.clone_from(&s.v))),
+            (MReg::C17(d), MReg::C17(s)) => windowed(&s.v, || counted(|| d.v.clone_from(&s.v))),
             _ => unreachable!(),
         }
     }
@@ -139,6 +149,7 @@ impl MReg {
             MReg::C3(g) => MReg::C3(Guarded::new(windowed(&g.v, || counted(|| g.v.clone())))),
             MReg::C4(g) => MReg::C4(Guarded::new(windowed(&g.v, || counted(|| g.v.clone())))),
             MReg::C8(g) => MReg::C8(Guarded::new(windowed(&g.v, || counted(|| g.v.clone())))),
+            MReg::C17(g) => MReg::C17(Guarded::new(windowed(&g.v, || counted(|| g.v.clone())))),
         }
     }
 }
@@ -151,6 +162,7 @@ impl SReg {
             (SReg::C3(d), SReg::C3(s)) => windowed(&s.v, || counted(|| d.v.clone_from(&s.v))),
             (SReg::C4(d), SReg::C4(s)) => windowed(&s.v, || counted(|| d.v.clone_from(&s.v))),
             (SReg::C8(d), SReg::C8(s)) => windowed(&s.v, || counted(|| d.v.clone_from(&s.v))),
+            (SReg::C17(d), SReg::C17(s)) => windowed(&s.v, || counted(|| d.v.clone_from(&s.v))),
             _ => unreachable!(),
         }
     }
@@ -159,6 +171,7 @@ impl SReg {
         match self {
             SReg::C0(g) => g.intact(), SReg::C1(g) => g.intact(), SReg::C2(g) => g.intact(),
             SReg::C3(g) => g.intact(), SReg::C4(g) => g.intact(), SReg::C8(g) => g.intact(),
+            SReg::C17(g) => g.intact(),
         }
     }
     fn clone_reg(&self) -> SReg {
@@ -169,6 +182,7 @@ impl SReg {
             SReg::C3(g) => SReg::C3(Guarded::new(windowed(&g.v, || counted(|| g.v.clone())))),
             SReg::C4(g) => SReg::C4(Guarded::new(windowed(&g.v, || counted(|| g.v.clone())))),
             SReg::C8(g) => SReg::C8(Guarded::new(windowed(&g.v, || counted(|| g.v.clone())))),
+            SReg::C17(g) => SReg::C17(Guarded::new(windowed(&g.v, || counted(|| g.v.clone())))),
         }
     }
 }
